@@ -205,6 +205,12 @@ func (svc *service) start() error {
 // FIXME: The order of closing here causes panic sometimes. For example, if receiver
 // calls this, and closes the buffers, somehow it causes buffer.go:476 to panid.
 func (svc *service) stop() {
+	verifWon := false
+	defer func() {
+		if verifWon {
+			verifEvent("teardown-done", svc.id, 0)
+		}
+	}()
 	defer func() {
 		// Let's recover from panic
 		if r := recover(); r != nil {
@@ -216,6 +222,7 @@ func (svc *service) stop() {
 	if !doit {
 		return
 	}
+	verifWon = true
 
 	// Close quit channel, effectively telling all the goroutines it's time to quit
 	if svc.done != nil {
@@ -278,6 +285,7 @@ func (svc *service) publish(msg *message.PublishMessage, onComplete OnCompleteFu
 	if err != nil {
 		return fmt.Errorf("(%s) Error sending %s message: %v", svc.cid(), msg.Name(), err)
 	}
+	verifYield("publish.after-write", svc)
 
 	switch msg.QoS() {
 	case message.QosAtMostOnce:
@@ -306,6 +314,7 @@ func (svc *service) subscribe(msg *message.SubscribeMessage, onComplete OnComple
 	if err != nil {
 		return fmt.Errorf("(%s) Error sending %s message: %v", svc.cid(), msg.Name(), err)
 	}
+	verifYield("subscribe.after-write", svc)
 
 	var onc OnCompleteFunc = func(msg, ack message.Message, err error) error {
 		onComplete := onComplete
@@ -382,6 +391,7 @@ func (svc *service) unsubscribe(msg *message.UnsubscribeMessage, onComplete OnCo
 	if err != nil {
 		return fmt.Errorf("(%s) Error sending %s message: %v", svc.cid(), msg.Name(), err)
 	}
+	verifYield("unsubscribe.after-write", svc)
 
 	var onc OnCompleteFunc = func(msg, ack message.Message, err error) error {
 		onComplete := onComplete
@@ -446,6 +456,7 @@ func (svc *service) ping(onComplete OnCompleteFunc) error {
 	if err != nil {
 		return fmt.Errorf("(%s) Error sending %s message: %v", svc.cid(), msg.Name(), err)
 	}
+	verifYield("ping.after-write", svc)
 
 	return svc.sess.Pingack.Wait(msg, onComplete)
 }
